@@ -17,6 +17,9 @@ import ScalesModel.Adapter.E2E
 import ScalesModel.Adapter.TagPool
 import ScalesModel.Adapter.Shared
 import ScalesModel.Adapter.KafkaCodec
+import ScalesModel.Adapter.Varz
+import ScalesModel.Adapter.Proxy
+import ScalesModel.Adapter.Uri
 open Scales
 
 def components : List Comp := [
@@ -31,7 +34,10 @@ def components : List Comp := [
   ⟨"singleton", Scales.Shared.singleton.run⟩,
   ⟨"refcount", Scales.Shared.refcount.run⟩,
   ⟨"sharedprov", Scales.Shared.sharedprov.run⟩,
-  ⟨"kafkacodec", Scales.Kafka.comp.run⟩
+  ⟨"kafkacodec", Scales.Kafka.comp.run⟩,
+  ⟨"varz", Scales.Varz.comp.run⟩,
+  ⟨"proxy", Scales.Proxy.comp.run⟩,
+  ⟨"uri", Scales.Uri.comp.run⟩
 ]
 
 structure CaseAcc where
